@@ -20,7 +20,8 @@ inductive Val
   | rat (q : Rat)
   | str (s : String)
   /-- the float `-0.0` (produced by quantised samplers: `np.round(x / q) * q`); equal to
-  `0.0` for Python, but with its own match string `-0.000000e+00` -/
+  `0.0` for Python, and (since the fix "-0.0 and 0.0 were treated as different
+  configurations") with the same match string -/
   | nzero
 deriving DecidableEq, Repr, Inhabited
 
@@ -317,11 +318,10 @@ def Dom.matchPart (d : Dom) (v : Val) : Except Err String :=
   | .int _ _ _ _ => match v with
     | .int i => .ok (toString i)
     | _ => .error (.unsupported "str() of a non-int for an Integer domain")
-  | .float _ _ _ _ => match v with
-    | .nzero => .ok "-0.000000e+00"
-    | _ => match v.num? with
-      | some x => .ok (fmt6e x)
-      | none => .error (.valueError "format of str")
+  | .float _ _ _ _ => match v.num? with
+    -- f"{value + 0.0:.6e}": `-0.0 + 0.0 = 0.0`, so negative zero has the match string of zero
+    | some x => .ok (fmt6e x)
+    | none => .error (.valueError "format of str")
   | .fin vals lo hi log _ raw => match v.num? with
     | some x => .ok (toString (finIdx lo hi log raw vals.length x none))
     | none => .error (.valueError "clip of str")
